@@ -29,6 +29,7 @@ WORKERS = {"quick": 8, "thorough": 16}
 BUDGET = {"quick": 60, "thorough": 1200}
 EXHAUSTIVE = {"quick": False, "thorough": True}
 N_FRAMES = 6
+N_LONG = 230
 FMTS = ["h5", "xtc", "xtc9", "trr", "dcd", "dcd0", "dcd4", "dcdfix", "mdcrd-hasbox", "mdcrd-nobox20", "nc", "mdcrd", "mdcrd-nobox", "xyz", "xyz-foreign", "xyz.gz", "lammpstrj", "dtr", "arc"]
 # dcd0 = DCD whose header frame count was never patched (0); dcd4 = CHARMM 4-dimensional DCD (see vlib/gen/files.py);
 # mdcrd-nobox = MDCRD without box lines (the default files carry a cell)
@@ -102,6 +103,9 @@ def _gen_cases(tier, seed):
     for j in range(nrand):
         rng = common.rng_for("C18", seed, j)
         fmt = FMTS[j % len(FMTS)]
+        n = N_FRAMES
+        if j % 20 == 19:
+            n = N_LONG  # a long file: reads, seeks and skips over hundreds of frames
         two = bool(rng.random() < 0.4)
         L = int(rng.integers(3, 11 if tier == "quick" else 13))
         pos = [0, 0]
@@ -119,19 +123,20 @@ def _gen_cases(tier, seed):
                 a = int(rng.integers(-pos[h], n - pos[h]))
             ops.append([h, o, a])
             pos[h] = apply_model(o, a, pos[h], n)
-        yield dict(i=i, fmt=fmt, ai=bool(rng.random() < 0.35), ops=ops)
+        yield dict(i=i, fmt=fmt, ai=bool(rng.random() < 0.35), ops=ops, **({"n": n} if n != N_FRAMES else {}))
         i += 1
 
 
-def _file_for(fmt):
+def _file_for(fmt, N_FRAMES=N_FRAMES):
     """(path, ext, n_atoms, reference coordinates in native units) for this format (cached per worker)."""
     import mdtraj as md
-    if fmt in _CACHE:
-        return _CACHE[fmt]
+    if (fmt, N_FRAMES) in _CACHE:
+        return _CACHE[fmt, N_FRAMES]
     if fmt == "arc":
-        path, ext, na = "/repo/tests/data/4waters.arc", "arc", None
-        if os.environ.get("VERIF_REPO"):
-            path = os.path.join(os.environ["VERIF_REPO"], "tests/data/4waters.arc")
+        # read-only format: the file is produced by the harness (vlib/gen/files.py arc_write)
+        ext, na = "arc", 12
+        path = os.path.join(_TMP, f"f_arc_{N_FRAMES}.arc")
+        files.arc_write(path, files.ident_xyz(N_FRAMES, na))
     else:
         ext = {"xtc9": "xtc", "dcd0": "dcd", "dcd4": "dcd", "dcdfix": "dcd", "mdcrd-nobox": "mdcrd", "mdcrd-hasbox": "mdcrd",
                "mdcrd-nobox20": "mdcrd", "xyz-foreign": "xyz"}.get(fmt, fmt)
@@ -140,7 +145,7 @@ def _file_for(fmt):
         na = {"xtc9": 6, "mdcrd-hasbox": 10, "mdcrd-nobox20": 20}.get(fmt, 12)
         _OPENKW[fmt] = {"mdcrd-hasbox": dict(has_box=True), "mdcrd-nobox20": dict(has_box=False)}.get(fmt, {})
         t = files.ident_traj(N_FRAMES, na, cell=None if fmt in ("dcd4", "dcdfix", "mdcrd-nobox", "mdcrd-nobox20") else "ortho")
-        path = os.path.join(_TMP, f"f_{fmt}.{ext}")
+        path = os.path.join(_TMP, f"f_{fmt}_{N_FRAMES}.{ext}")
         t.save(path)
         if fmt == "xyz-foreign":
             files.xyz_make_foreign(path)
@@ -154,21 +159,19 @@ def _file_for(fmt):
             files.dcd_make_fixed(path + ".all", path, na, N_FRAMES)
     with md.open(path, **files.open_kwargs(ext, na), **_OPENKW.get(fmt, {})) as fh:
         R = np.array(files.coords_of(ext, fh.read()))
-    if fmt != "arc":
-        f, a = files.identify(R / files.FORMATS[ext]["unit"])
-        good = (R.shape[0] == N_FRAMES and np.array_equal(f[:, 0], np.arange(N_FRAMES))
-                and np.array_equal(a[0], np.arange(na)))
-    else:
-        good = R.shape[0] >= 4
-        na = R.shape[1]
-    _CACHE[fmt] = (path, ext, na, R, good)
-    return _CACHE[fmt]
+    f, a = files.identify(R / (10.0 if ext == "arc" else files.FORMATS[ext]["unit"]))
+    good = (R.shape[0] == N_FRAMES and np.array_equal(f[:, 0], np.arange(N_FRAMES) % 40)
+            and np.array_equal(a[0], np.arange(na)))
+    _CACHE[fmt, N_FRAMES] = (path, ext, na, R, good)
+    return _CACHE[fmt, N_FRAMES]
 
 
 def run_case(case, ctx):
     import mdtraj as md
     fmt = case["fmt"]
-    path, ext, na, R, good = _file_for(fmt)
+    path, ext, na, R, good = _file_for(fmt, case.get("n", N_FRAMES))
+    if case.get("n"):
+        ctx.observe("file_length", case["n"])
     if not good:
         ctx.skip("reference", f"{fmt}: a full read through a fresh handle does not identify frames 0..n-1 (see C01/C02)")
         return
